@@ -188,6 +188,33 @@ def main():
                 cases.append(dict(id=f'{c["id"]}:sizetable:{S >> 20}', root=c['root'], stream=(stream[:hdr_end] + frame).hex(), kind='crafted-size-table', compr=0))
         for c, o in zip(sem, outs[len(seeds):]):
             cases.append(dict(id=c['id'], root='Metrics', stream=o['stream'], kind='semantic', compr=0, semantic=c['semantic']))
+        # deep nesting: a recursive value (AnyValue -> array -> AnyValue ...) grown by 120000 levels with
+        # every record, each step within the record allocation limit; the decoders are recursive, so without
+        # a nesting limit the reader's stack grows until the Go runtime kills the process (fatal error, not a
+        # panic). The stream is synthesized at the byte level (tools/deepstream.py) from four frames written
+        # by the implementation, and only after the synthesis reproduces the implementation's own frames.
+        import deepstream
+        mkdeep = lambda d: [[[]], ['6d', '', '', '0', [], [], '0', False], ['', [], '0'], ['', '', '', [], '0'],
+                            [['61', deepstream.nested_value(d)]], ['1', '2', [1, '4'], []]]
+        base_case = dict(id='deep-base', root='Metrics', opts=dict(compression=0, maxframe=0, maxdict=0, flags=0, descriptor=False, userdata={}),
+                         ops=sum(([{'op': 'set', 'v': mkdeep(d)}, {'op': 'w'}, {'op': 'f'}] for d in (8, 16, 24, 32)), []))
+        bo, _, _ = h.run_go([base_case])
+        try:
+            syn = deepstream.Synth(bytes.fromhex(bo[0]['stream']))
+        except Exception as e:      # the writer's layout changed: the synthesis is refused rather than guessed
+            syn = None
+            verdict.violation(dict(case=base_case, error=repr(e), broken='deep-nesting generator: template frames do not extend periodically'),
+                              'deep-nesting: cannot synthesize the input', no_input=True)
+        if syn:
+            nd = 60 if tier == 'quick' else 90
+            path = os.path.join(vlib.BUILD, 'c03_deep.bin')
+            syn.write(path, [120000 * k for k in range(1, nd + 1)])
+            cases.append(dict(id=f'deep-nesting-120000x{nd}', root='Metrics', file=path, stream='', kind='deep-nesting', compr=0, timeout_s=300,
+                              generator=f'tools/deepstream.py: depths 120000*k, k=1..{nd}, template = records of depth 8,16,24,32 written by the harness'))
+            path2 = os.path.join(vlib.BUILD, 'c03_deep_small.bin')
+            syn.write(path2, [4000 * k for k in range(1, 11)])
+            cases.append(dict(id='deep-nesting-4000x10', root='Metrics', file=path2, stream='', kind='deep-valid', compr=0,
+                              generator='tools/deepstream.py: depths 4000*k, k=1..10'))
         ncases = len(cases)
         for c in cases:
             stats['kind_' + c['kind']] += 1
@@ -195,9 +222,15 @@ def main():
         results = {}
         pending = list(cases)
         while pending:
-            inp = '\n'.join(json.dumps(dict(id=c['id'], root=c['root'], stream=c['stream'])) for c in pending) + '\n'
+            inp = '\n'.join(json.dumps(dict(id=c['id'], root=c['root'], stream=c['stream'], file=c.get('file', ''), timeout_s=c.get('timeout_s', 20))) for c in pending) + '\n'
             p = subprocess.run([c3bin], input=inp.encode(), stdout=subprocess.PIPE, stderr=subprocess.PIPE, preexec_fn=vlib._big_stack)
-            got = [json.loads(l) for l in p.stdout.decode().split('\n') if l.strip()]
+            got = []
+            for l in p.stdout.decode(errors='replace').split('\n'):
+                if l.strip():
+                    try:
+                        got.append(json.loads(l))
+                    except ValueError:      # the process died while writing this line
+                        break
             for g in got:
                 results[g['id']] = g
             if len(got) < len(pending):
@@ -212,19 +245,21 @@ def main():
         # 3. oracle
         for c in cases:
             r = results.get(c['id'], {})
-            replay = dict(case=dict(id=c['id'], root=c['root'], kind=c['kind'], stream=c['stream']), result=r,
+            replay = dict(case=dict(id=c['id'], root=c['root'], kind=c['kind'], stream=c['stream'], generator=c.get('generator')), result=r,
                           how_to_run=f"echo '{{\"id\":\"x\",\"root\":\"{c['root']}\",\"stream\":\"<stream>\"}}' | build/go_c03")
             bad = None
             if r.get('fatal'):
                 bad = ('fatal', 'process died (fatal error: stack overflow / out of memory?)')
             elif r.get('hang'):
-                bad = ('hang', 'no result within 20 s')
+                bad = ('hang', f'no result within {c.get("timeout_s", 20)} s')
             elif r.get('panic'):
                 bad = ('panic', f'reader panicked: {r["panic"][:100]}')
             elif r.get('conv_panic'):
                 bad = ('conv-panic', f'converter panicked: {r["conv_panic"][:100]}')
             elif r.get('alloc_mb', 0) > ALLOC_BOUND_MB:
                 bad = ('alloc', f'{r["alloc_mb"]:.0f} MiB allocated for a {len(c["stream"]) // 2}-byte input (bound {ALLOC_BOUND_MB} MiB)')
+            elif c['kind'] == 'deep-valid' and (r.get('open') != 'ok' or r.get('err') != 'eof' or r.get('nrec') != 11):
+                bad = ('valid-rejected', f'valid stream nesting 40000 levels rejected: {r.get("open")} {r.get("nrec")} {r.get("err")}')
             elif c['kind'] == 'valid' and (r.get('open') != 'ok' or r.get('err') != 'eof'):
                 bad = ('valid-rejected', f'valid stream rejected: {r.get("open")} {r.get("err")}')
             if bad:
